@@ -226,7 +226,8 @@ partial def runItems (ownWo : Bool) (tc : TestCase) (drv : Driver (List DrvResp)
       let again := match s'.next tc drv 200000 d' with
         | .none s'' d'' => (match s''.next tc drv 200000 d'' with | .none _ _ => true | _ => false)
         | _ => false
-      acc.push ("item " ++ toString k ++ " none" ++ (if again then "" else " NOT-STICKY"))
+      (acc.push ("item " ++ toString k ++ " none" ++ (if again then "" else " NOT-STICKY"))).push
+        ("rng draws=" ++ toString s'.ctx.rng.total)
     | .item (.err e) _ _ calls =>
       let acc := calls.foldl (fun a c => a.push (callLine ownWo tc c)) acc
       (acc.push ("item " ++ toString k ++ " err " ++ errClass e)).push ("# " ++ errDetail e)
